@@ -482,8 +482,12 @@ def maskOf : List Reg → Nat
 def TaintSet.has (T : TaintSet) (r : Reg) : Bool := T.testBit r.idx
 def TaintSet.flags (T : TaintSet) : Bool := T.testBit 0
 
-/-- everything tainted: all architectural registers and the flags -/
-def allTaint : TaintSet := 2 ^ 128 - 1
+/-- Bit 128 is no register: it marks "reachable from the entry".  No instruction can clear it (`checkInstr`
+    only admits masks below 2^128), so under an inductive invariant every reachable pc carries it. -/
+def reachBit : Nat := 128
+
+/-- entry state: all architectural registers and the flags tainted, reachable -/
+def allTaint : TaintSet := 2 ^ 129 - 1
 
 def subset (A B : TaintSet) : Bool := A &&& B == A
 
@@ -505,9 +509,11 @@ def transfer (e : Eff) (T : TaintSet) : TaintSet :=
 
 /-! ## 5. The checker -/
 
+/-- the fall-through successor exists and inherits the taint; an instruction that runs off the end of the listing
+    is admitted only if it is unreachable (padding after the last RET) -/
 def okNext (inv : Nat → TaintSet) (T' : TaintSet) : Option Nat → Bool
   | some n => subset T' (inv n)
-  | none => false
+  | none => !T'.testBit reachBit
 
 def okTarget (inv : Nat → TaintSet) (hasPc : Nat → Bool) (T' : TaintSet) : Option Nat → Bool
   | some t => hasPc t && subset T' (inv t)
@@ -622,13 +628,11 @@ def lookupIn : List Instr → List Nat → Nat → Option Nat
   | i :: is, t :: ts, pc => if i.pc == pc then some t else lookupIn is ts pc
   | _, _, _ => none
 
-def lastPc : List Instr → Nat
-  | [] => 0
-  | [i] => i.pc
-  | _ :: rest => lastPc rest
-
 def lookup2 : List (List Instr) → List (List Nat) → Nat → Nat
-  | c :: cs, t :: ts, pc => if pc ≤ lastPc c then (lookupIn c t pc).getD 0 else lookup2 cs ts pc
+  | c :: cs, t :: ts, pc =>
+    match cs with
+    | (j :: _) :: _ => if pc < j.pc then (lookupIn c t pc).getD 0 else lookup2 cs ts pc
+    | _ => (lookupIn c t pc).getD 0
   | _, _, _ => 0
 
 /-- split a table like the chunks of the listing -/
